@@ -75,6 +75,7 @@ def main():
 
     general(run, h, rng, proc)
     long_windows(run, h, rng, proc)
+    mixed_time_steps(run, h, rng, proc)
     preprocessing(run, h, rng)
     psd_chain(run, h, rng)
     return run.finish(
@@ -82,6 +83,30 @@ def main():
              "identity, 4^k scaling, Welch average and diffuse-field relation on seeded noise (n even/odd, padded, tapered); analytic PSD "
              "preprocessing cases; non-trivial = non-zero interior density with two windows",
         exhaustive=run.quick)
+
+
+def mixed_time_steps(run, h, rng, proc):
+    """'obtained from the same windows': with a keeping policy for dissimilar time steps the diffuse-field curve (and the PSD) is
+    that of the KEPT windows - whatever the dropped windows were and wherever they stood in the list."""
+    ts = h.TimeSeries
+    n = 600
+    def rec(dt, k):
+        w = rng.normal(size=n) + 0.2 * np.sin(2 * np.pi * 5.0 * np.arange(n) * dt + k)
+        return h.SeismicRecording3C(ts(w, dt), ts(w[::-1] * 0.7, dt), ts(np.roll(w, 17) * 0.5, dt))
+    kept = [rec(0.01, k) for k in range(3)]
+    odd = rec(0.02, 9)
+    sm = dict(operator="konno_and_ohmachi", bandwidth=30.0, center_frequencies_in_hz=np.geomspace(1.0, 20.0, 9))
+    for policy in ("keeping_majority_time_step", "keeping_smallest_time_step"):
+        for where, lst in (("first", [odd] + kept), ("middle", kept[:1] + [odd] + kept[1:]), ("last", kept + [odd])):
+            mk = lambda: h.HvsrDiffuseFieldProcessingSettings(window_type_and_width=["tukey", 0.2], smoothing=dict(sm), handle_dissimilar_time_steps_by=policy)
+            got = proc(lst, mk()).amplitude
+            want = proc(kept, mk()).amplitude
+            if not np.allclose(got, want, rtol=1e-12, atol=0):
+                run.violation("psd:diffuse-field:dissimilar-time-steps", f"diffuse field, {policy}, the recording with the other time step {where} in the list: the curve "
+                              f"differs from the curve of the kept recordings alone (max rel diff {np.max(np.abs(got - want) / np.abs(want)):.2e})",
+                              dict(kind="psd-mixed-dt", policy=policy, where=where))
+            # (the PSD path itself never consults handle_dissimilar_time_steps_by - an observation, outside the listed properties)
+            run.case(("mixed-dt", policy, where))
 
 
 def long_windows(run, h, rng, proc):
